@@ -37,13 +37,21 @@ EXPLANATION = (
     "to self._node.modify and returns that Deferred; an Adder built without entries is given every item (each loop "
     "iteration, from that iteration's values) through Adder.set_node, which keeps (node, metadata) under the name; "
     "create_subdirectory registers its linking callback on the Deferred it returns. "
-    "Undecided: the dict semantics of Python, normalisation of names (C19), retry/merge behaviour of "
+    "(8) every key with which Adder / Deleter / MetadataSetter.modify address the children map is normalize(..) of the "
+    "name given - decided across the constructor and its callers: the key is normalised in modify, or the attribute it "
+    "comes from is bound to normalize(..) in the modifier, or every call site that constructs the modifier (every "
+    "Adder.set_node call / entries dict for the Adder) hands in a name all of whose reaching definitions are "
+    "normalize(..); a parameter of a public DirectoryNode operation counts as not normalised. (9) the read operations "
+    "(has_child, get, get_child_and_metadata, get_metadata_for) look the children map of self._read() up under "
+    "normalize(..) of the name given, in the lambda or in the helper the name is handed to. "
+    "Undecided: the dict semantics of Python, what normalize() computes and the normalisation of stored keys (C19), retry/merge behaviour of "
     "MutableFileNode.modify under contention (incl. what first_time means on a retry), clock values, the value a "
     "successful operation's Deferred fires with, the NotWriteableError gates of read-only directories, the pre-1.4.0 "
     "'ctime' -> 'linkcrtime' migration, whether a 'no-write' child is actually stored read-only (only the converse is "
     "decided), and the contents given to a new subdirectory.")
 TECHNIQUE = ("static analysis: CFG x fact monitor over modifier bodies, per-iteration definedness of loop locals, "
-             "Deferred registration order, argument forwarding")
+             "Deferred registration order, argument forwarding, reaching definitions of a name followed from the "
+             "modifier through its constructor to every call site")
 
 MOD = "dirnode"
 DN = MOD + ":DirectoryNode"
@@ -278,6 +286,305 @@ def _mentions(e, name):
 
 def _contains_modify_call(e):
     return any(isinstance(x, ast.Call) and call_tail(x) == "modify" for x in own_nodes(e))
+
+
+# ------------------------------------------------- name normalisation, across constructor and callers
+def _is_normalize_call(e):
+    return isinstance(e, ast.Call) and call_tail(e) == "normalize" and len(e.args) + len(e.keywords) >= 1
+
+
+def _key_uses_in(e, cname):
+    """[(key_expr, how)]: every expression used inside `e` as a key of the children map bound to the name `cname`
+    (membership test, subscript load / store / delete, get / pop / setdefault / __contains__)."""
+    out = []
+    for x in own_nodes(e, into_lambda=True):
+        if isinstance(x, ast.Compare) and len(x.ops) == 1 and isinstance(x.ops[0], (ast.In, ast.NotIn)) \
+                and isinstance(x.comparators[0], ast.Name) and x.comparators[0].id == cname:
+            out.append((x.left, "membership test"))
+        elif isinstance(x, ast.Subscript) and isinstance(x.value, ast.Name) and x.value.id == cname:
+            out.append((x.slice, "subscript"))
+        elif isinstance(x, ast.Call) and isinstance(x.func, ast.Attribute) and attr_path(x.func.value) == cname \
+                and x.func.attr in ("get", "pop", "setdefault", "__contains__", "__getitem__", "__delitem__",
+                                    "__setitem__") and x.args:
+            out.append((x.args[0], x.func.attr))
+    return out
+
+
+def _children_key_uses(cfg, cname):
+    """[(node, key_expr, how)] for every key use of the children map `cname` in a function body."""
+    out, seen = [], set()
+    for n in cfg.nodes:
+        for e in node_exprs(n):
+            for (k, how) in _key_uses_in(e, cname):
+                if id(k) not in seen:
+                    seen.add(id(k))
+                    out.append((n, k, how))
+    return out
+
+
+class _NameJudge:
+    """Decides whether a name expression is NFC-normalised (the result of normalize(..)) at a program point,
+    following local copies, attributes bound in the class, constructor / method parameters to every call site,
+    closures of nested functions and lambdas, and the keys of a dict attribute a loop iterates over.
+    judge(..) returns a list of failures [(fn, ast_node, message)]; the empty list means normalised."""
+
+    def __init__(self, idx):
+        self.idx = idx
+        self.cg = get_callgraph(idx)
+        self._cache = {}
+        self.consulted = []          # (fn, ast_node, what): call sites / bindings the verdict rests on
+
+    def _flow(self, fn):
+        hit = self._cache.get(fn.qual)
+        if hit is None:
+            cfg = fn.cfg()
+            hit = (cfg, reaching_defs(cfg))
+            self._cache[fn.qual] = hit
+        return hit
+
+    def _node_of(self, fn, x):
+        cfg, _rd = self._flow(fn)
+        for n in cfg.nodes:
+            for e in node_exprs(n):
+                for y in own_nodes(e, into_lambda=True):
+                    if y is x:
+                        return n
+        return None
+
+    def _lambda_params(self, fn, x):
+        """Parameters of the lambdas of `fn` that enclose the expression x (None when x is not inside a lambda)."""
+        ps, inside = set(), False
+        for lam in func_own_nodes(fn, into_lambda=True):
+            if isinstance(lam, ast.Lambda) and any(y is x for y in ast.walk(lam.body)):
+                inside = True
+                a = lam.args
+                ps |= {y.arg for y in a.posonlyargs + a.args + a.kwonlyargs}
+                ps |= {y.arg for y in (a.vararg, a.kwarg) if y is not None}
+        return ps if inside else None
+
+    # -- expressions
+    def judge(self, fn, node, e, depth=0, closure=False):
+        if depth > 10:
+            return [(fn, e, "the origin of %s could not be followed" % src(fn, e))]
+        if _is_normalize_call(e):
+            return []
+        if isinstance(e, ast.IfExp):
+            return self.judge(fn, node, e.body, depth + 1, closure) + self.judge(fn, node, e.orelse, depth + 1, closure)
+        if isinstance(e, ast.Name):
+            return self._name(fn, node, e, depth, closure)
+        p = attr_path(e)
+        if p and p.startswith("self.") and p.count(".") == 1 and fn.cls is not None:
+            return self._attr(fn, fn.cls, p, depth)
+        return [(fn, e, "%s is not the result of normalize(..)" % src(fn, e))]
+
+    def _name(self, fn, node, e, depth, closure):
+        cfg, rd = self._flow(fn)
+        name = e.id
+        if not closure and node is not None:
+            lp = self._lambda_params(fn, e)
+            if lp is not None:
+                if name in lp:
+                    return [(fn, e, "%s is the argument of a callback, not a normalised name" % name)]
+                closure = True
+        if closure or node is None:
+            ds = {n.id for n in cfg.nodes if name in node_stores(n)}
+            if name in fn.params:
+                ds.add(-1)
+        else:
+            ds = set(rd.get(node.id, {}).get(name) or ())
+        if not ds:
+            if fn.parent is not None:             # free variable of a nested function: every binding in the outer one
+                return self._name(fn.parent, None, e, depth + 1, True)
+            return [(fn, e, "%s has no binding that could be followed" % name)]
+        out = []
+        for d in sorted(ds):
+            if d < 0:
+                out += self._param(fn, name, depth + 1)
+                continue
+            dn = cfg.nodes[d]
+            if dn.kind == "iter":
+                out += self._loop_target(fn, dn, name, depth + 1)
+                continue
+            v = assign_value(dn, name)
+            if v is None:
+                out.append((fn, dn.ast, "%s is bound by %s, which is not normalize(..)" % (name, src(fn, dn.ast))))
+            else:
+                out += self.judge(fn, dn, v, depth + 1)
+        return out
+
+    # -- attributes of the modifier
+    def _attr(self, fn, ci, path, depth):
+        out, n_stores = [], 0
+        for m in ci.methods.values():
+            cfg, _rd = self._flow(m)
+            for n in cfg.nodes:
+                if path in node_stores(n):
+                    n_stores += 1
+                    v = assign_value(n, path)
+                    if v is None:
+                        out.append((m, n.ast, "%s is bound by %s, which is not normalize(..)" % (path, src(m, n.ast))))
+                        continue
+                    self.consulted.append((m, n.ast, "%s bound" % path))
+                    out += self.judge(m, n, v, depth + 1)
+        if not n_stores:
+            return [(fn, fn.node, "%s is never bound in %s" % (path, ci.name))]
+        return out
+
+    # -- parameters: every call site
+    def _sites(self, fn):
+        """Call sites of `fn` as [(caller FuncInfo, call)], or None when callers cannot be enumerated."""
+        ci = fn.cls
+        if ci is None or fn.parent is not None:
+            return None
+        if fn.name == "__init__":
+            return [(cs.fn, cs.call) for cs in self.cg.calls_named(ci.name)
+                    if any(t is fn for t in self.cg.resolve(cs.fn, cs.call))]
+        if fn.name.startswith("__") or not self._is_modifier(ci):
+            return None               # a method of the public directory API: its callers are the outside world
+        out = []
+        for cs in self.cg.calls_named(fn.name):
+            recv = cs.call.func.value if isinstance(cs.call.func, ast.Attribute) else None
+            if not isinstance(recv, ast.Name):
+                continue
+            g = cs.fn
+            while g is not None:
+                bound = [x.value for x in func_own_nodes(g) if isinstance(x, ast.Assign)
+                         and any(isinstance(t, ast.Name) and t.id == recv.id for t in x.targets)]
+                if bound:
+                    if all(isinstance(v, ast.Call) and any(t.cls is ci for t in self.cg.resolve(g, v)) for v in bound):
+                        out.append((cs.fn, cs.call))
+                    break
+                g = g.parent
+        return out
+
+    def _is_modifier(self, ci):
+        return ci.module.name.endswith(MOD) and ci.name in ("Adder", "Deleter", "MetadataSetter")
+
+    def _param(self, fn, name, depth):
+        sites = self._sites(fn)
+        if sites is None:
+            return [(fn, fn.node, "%s is the caller-supplied parameter %s of %s, which need not be normalised" % (
+                name, name, short(fn)))]
+        if not sites:
+            raise AnchorVanished("no call site of %s found" % short(fn))
+        ps = first_positional_params(fn)
+        if name not in ps:
+            return [(fn, fn.node, "%s of %s is not a plain parameter" % (name, short(fn)))]
+        out = []
+        for (g, call) in sites:
+            a = arg(call, ps.index(name), name)
+            self.consulted.append((g, call, "caller of %s" % short(fn)))
+            if a is None or any(isinstance(x, ast.Starred) for x in call.args) or any(k.arg is None for k in call.keywords):
+                out.append((g, call, "%s does not show which name it gives to %s" % (src(g, call), short(fn))))
+                continue
+            before = len(out)
+            out += self.judge(g, self._node_of(g, call), a, depth + 1)
+            if len(out) > before:
+                out[before:] = [(g, call, "%s is handed %s by %s: %s" % (short(fn), src(g, a), short(g), out[before][2]))]
+        return out
+
+    # -- a loop over the keys of a dict attribute
+    def _loop_target(self, fn, it, name, depth):
+        tgt, iterable = it.ast.target, it.ast.iter
+        while isinstance(iterable, ast.Call) and call_tail(iterable) in ("list", "sorted", "tuple", "iter") \
+                and len(iterable.args) == 1 and isinstance(iterable.func, ast.Name):
+            iterable = iterable.args[0]
+        key_t = None
+        if isinstance(iterable, ast.Call) and isinstance(iterable.func, ast.Attribute) and not iterable.args:
+            if iterable.func.attr == "items" and isinstance(tgt, (ast.Tuple, ast.List)) and len(tgt.elts) == 2:
+                key_t, iterable = tgt.elts[0], iterable.func.value
+            elif iterable.func.attr == "keys":
+                key_t, iterable = tgt, iterable.func.value
+        elif attr_path(iterable):
+            key_t = tgt
+        p = attr_path(iterable)
+        if not (isinstance(key_t, ast.Name) and key_t.id == name and p and p.startswith("self.") and p.count(".") == 1
+                and fn.cls is not None):
+            return [(fn, it.ast, "%s is an item of %s, which is not known to hold normalised names" % (
+                name, src(fn, it.ast.iter)))]
+        return self._dict_keys(fn.cls, p, depth)
+
+    def _dict_keys(self, ci, path, depth):
+        out, n_stores = [], 0
+        for m in ci.methods.values():
+            cfg, _rd = self._flow(m)
+            for n in cfg.nodes:
+                for e in node_exprs(n):
+                    for x in own_nodes(e):
+                        if isinstance(x, ast.Call) and isinstance(x.func, ast.Attribute) and attr_path(x.func.value) == path \
+                                and x.func.attr in ("update", "setdefault", "__setitem__"):
+                            out.append((m, x, "%s is filled by %s with keys that are not known to be normalised" % (
+                                path, src(m, x))))
+                if n.kind == "stmt" and isinstance(n.ast, ast.Assign):
+                    for t in n.ast.targets:
+                        if isinstance(t, ast.Subscript) and attr_path(t.value) == path:
+                            n_stores += 1
+                            self.consulted.append((m, n.ast, "key stored into %s" % path))
+                            out += self.judge(m, n, t.slice, depth + 1)
+                if path in node_stores(n):
+                    n_stores += 1
+                    v = assign_value(n, path)
+                    out += self._dict_value(m, n, v, path, depth + 1) if v is not None else [
+                        (m, n.ast, "%s is bound by %s" % (path, src(m, n.ast)))]
+        if not n_stores:
+            return [(ci.methods.get("__init__") or next(iter(ci.methods.values())), ci.node, "%s is never bound" % path)]
+        return out
+
+    def _dict_value(self, fn, node, v, what, depth, closure=False):
+        """Failures unless every key of the dict value `v` is normalised (None / no dict counts as no keys)."""
+        if depth > 10:
+            return [(fn, v, "the origin of %s could not be followed" % src(fn, v))]
+        if v is None or (isinstance(v, ast.Constant) and v.value is None):
+            return []
+        if isinstance(v, ast.Dict):
+            out = []
+            for k in v.keys:
+                out += [(fn, v, "%s has entries of another dict" % src(fn, v))] if k is None else \
+                    self.judge(fn, node, k, depth + 1, closure)
+            return out
+        if isinstance(v, ast.Call) and call_tail(v) == "dict" and not v.args and not v.keywords:
+            return []
+        if isinstance(v, ast.Name):
+            cfg, rd = self._flow(fn)
+            if closure or node is None:
+                ds = {n.id for n in cfg.nodes if v.id in node_stores(n)} | ({-1} if v.id in fn.params else set())
+            else:
+                ds = set(rd.get(node.id, {}).get(v.id) or ())
+            if not ds and fn.parent is not None:
+                return self._dict_value(fn.parent, None, v, what, depth + 1, True)
+            out = []
+            for d in sorted(ds):
+                if d < 0:
+                    out += self._dict_param(fn, v.id, what, depth + 1)
+                    continue
+                dv = assign_value(cfg.nodes[d], v.id)
+                out += self._dict_value(fn, cfg.nodes[d], dv, what, depth + 1) if dv is not None else [
+                    (fn, cfg.nodes[d].ast, "%s is bound by %s" % (v.id, src(fn, cfg.nodes[d].ast)))]
+            if not ds:
+                out.append((fn, v, "%s has no binding that could be followed" % v.id))
+            return out
+        return [(fn, v, "%s is not a dict whose keys are known to be normalised" % src(fn, v))]
+
+    def _dict_param(self, fn, name, what, depth):
+        sites = self._sites(fn)
+        if sites is None:
+            return [(fn, fn.node, "the keys of the caller-supplied %s of %s need not be normalised" % (name, short(fn)))]
+        if not sites:
+            raise AnchorVanished("no call site of %s found" % short(fn))
+        ps = first_positional_params(fn)
+        out = []
+        for (g, call) in sites:
+            if any(isinstance(x, ast.Starred) for x in call.args) or any(k.arg is None for k in call.keywords):
+                out.append((g, call, "%s does not show which %s it gives to %s" % (src(g, call), name, short(fn))))
+                continue
+            a = arg(call, ps.index(name), name) if name in ps else None
+            self.consulted.append((g, call, "caller of %s" % short(fn)))
+            before = len(out)
+            out += self._dict_value(g, self._node_of(g, call), a, what, depth + 1)
+            if len(out) > before:
+                out[before:] = [(g, call, "%s is handed %s by %s: %s" % (short(fn), src(g, a), short(g), out[before][2]))]
+        return out
+
 
 
 # ---------------------------------------------------------------------- run
@@ -808,14 +1115,23 @@ def run(ctx: Context):
         fnorm = FlowNorm(fn)
         cname = _unpacked_container(fn)
         dinit = idx.func(MOD + ":Deleter.__init__")
-        # attribute holding the (normalised) name: self.X = normalize(namex)
-        name_attrs = []
+        # attribute holding the name: the self.X that modify tests for membership in the children map and that
+        # __init__ binds (whether the bound value is normalised is decided by C20.8)
+        bound = set()
         for n in func_own_nodes(dinit):
-            if isinstance(n, ast.Assign) and "namex" in {x.id for x in own_nodes(n.value) if isinstance(x, ast.Name)}:
-                name_attrs += [attr_path(t) for t in n.targets if attr_path(t)]
+            if isinstance(n, ast.Assign):
+                bound |= {attr_path(t) for t in n.targets if (attr_path(t) or "").startswith("self.")}
+        name_attrs = set()
+        for n in cfg.nodes:
+            if n.kind == "test":
+                f = fnorm.edge_fact(n, ("T", n.ast))
+                if f and f[0] in ("in", "not in") and f[1] in bound \
+                        and f[2] == fnorm.norm(n, ast.Name(id=cname, ctx=ast.Load())):
+                    name_attrs.add(f[1])
         if len(name_attrs) != 1:
-            raise AnchorVanished("Deleter.__init__: attribute holding the name not found")
-        NAME = name_attrs[0]
+            raise AnchorVanished("Deleter: attribute holding the name (bound in __init__, tested against the children "
+                                 "map in modify) not found: %s" % sorted(name_attrs))
+        NAME = name_attrs.pop()
         _i, MBD, _s = _init_attr_of_param(idx, MOD + ":Deleter", "must_be_directory")
         _i, MBF, _s = _init_attr_of_param(idx, MOD + ":Deleter", "must_be_file")
         muts = []
@@ -1216,3 +1532,121 @@ def run(ctx: Context):
         if n_ops < 6:
             raise AnchorVanished("only %d DirectoryNode operations build a modifier (expected set_node, set_nodes, "
                                  "set_children, create_subdirectory, delete, set_metadata_for)" % n_ops)
+
+    # -- 8. the name a modifier looks up is normalised, in the modifier or by every caller ------------------------
+    with ctx.rule("C20.8", "R3/E4", "every key with which Adder / Deleter / MetadataSetter.modify address the (NFC-keyed) "
+                  "children map is the result of normalize(..): in modify, in the constructor / set_node, or at every "
+                  "call site that hands the name in", expected=6) as r:
+        judge = _NameJudge(idx)
+        reported = set()
+        for cls in ("Adder", "Deleter", "MetadataSetter"):
+            fn = idx.func(MOD + ":" + cls + ".modify")
+            cfg = fn.cfg()
+            cname = _unpacked_container(fn)
+            uses = _children_key_uses(cfg, cname)
+            if not uses:
+                raise AnchorVanished("%s.modify no longer addresses the children map by name" % cls)
+            for (n, k, how) in uses:
+                r.site(fn, k, "%s key (%s)" % (cls, how))
+                for (g, where, msg) in judge.judge(fn, n, k):
+                    key = (g.qual, getattr(where, "lineno", 0), getattr(where, "col_offset", 0))
+                    if key in reported:
+                        continue
+                    reported.add(key)
+                    r.violation(g, g.loc(where), "%s.modify looks the entry up under %s, which is not normalised on every "
+                                "path into the modifier: %s (a non-NFC spelling of a stored name does not find its entry)"
+                                % (cls, src(fn, k), msg))
+        seen = set()
+        for (g, where, what) in judge.consulted:
+            if id(where) not in seen:
+                seen.add(id(where))
+                r.site(g, where, what)
+        r.count(len(judge.consulted))
+
+    # -- 9. the read operations look the name up in its normalised form ------------------------------------------
+    with ctx.rule("C20.9", "R3/E7", "every DirectoryNode operation that looks a name up in the children map delivered by "
+                  "self._read() (in a lambda, or in a helper registered / called with the name as extra argument) uses "
+                  "normalize(..) of the name it was given", expected=4) as r:
+        ci = idx.cls(DN)
+        judge = _NameJudge(idx)
+        reported = set()
+        found = []
+
+        def resolve_key(m, owner, node, k, bind, how):
+            """Judge the key `k` (an expression of `owner` at `node`); a helper parameter is replaced by what the
+            registration / call bound it to."""
+            if isinstance(k, ast.Name) and k.id in bind and not any(k.id in node_stores(x) for x in owner.cfg().nodes):
+                o2, n2, e2, b2 = bind[k.id]
+                if e2 is None:
+                    r.violation(m, m.loc(), "%s is used without the name it looks up" % short(owner))
+                    return
+                return resolve_key(m, o2, n2, e2, b2, how)
+            for (g, where, msg) in judge.judge(owner, node, k):
+                key = (g.qual, getattr(where, "lineno", 0), getattr(where, "col_offset", 0))
+                if key not in reported:
+                    reported.add(key)
+                    r.violation(owner, owner.loc(k), "%s looks the entry up under %s (%s), which is not normalised: %s (a "
+                                "non-NFC spelling of a stored name does not find its entry)" % (short(m), src(owner, k), how, msg))
+
+        def scan(m, owner, pairs, cname, bind, depth):
+            """pairs: [(cfg node of owner, expression)] in which the children map is the name `cname`."""
+            for (node, e) in pairs:
+                for (k, how) in _key_uses_in(e, cname):
+                    found.append((owner, k, how))
+                    resolve_key(m, owner, node, k, bind, how)
+                if depth >= 3:
+                    continue
+                for x in own_nodes(e, into_lambda=True):
+                    if isinstance(x, ast.Call) and x.args and isinstance(x.args[0], ast.Name) and x.args[0].id == cname \
+                            and not x.keywords and not any(isinstance(a, ast.Starred) for a in x.args):
+                        h = None
+                        if isinstance(x.func, ast.Attribute) and attr_path(x.func.value) == "self":
+                            h = ci.lookup(x.func.attr)
+                        elif isinstance(x.func, ast.Name):
+                            h = owner.nested.get(x.func.id) or (owner.parent.nested.get(x.func.id) if owner.parent else None)
+                        if h is not None:
+                            scan_fn(m, h, [(owner, node, a, bind) for a in x.args[1:]], depth + 1)
+
+        def scan_fn(m, g, bound_args, depth):
+            gps = first_positional_params(g)
+            if not gps:
+                return
+            bind = {}
+            for j, p_ in enumerate(gps[1:]):
+                bind[p_] = bound_args[j] if j < len(bound_args) else (g, None, None, {})
+            gcfg = g.cfg()
+            scan(m, g, [(n, e) for n in gcfg.nodes for e in node_exprs(n)], gps[0], bind, depth)
+
+        for m in ci.methods.values():
+            mcfg = m.cfg()
+            dvars = set()
+            for n in mcfg.nodes:
+                if n.kind == "stmt" and isinstance(n.ast, ast.Assign) and isinstance(n.ast.value, ast.Call) \
+                        and call_name(n.ast.value) == "self._read":
+                    dvars |= {t.id for t in n.ast.targets if isinstance(t, ast.Name)}
+            if not dvars:
+                continue
+            for reg in registrations(m):
+                if reg.recv not in dvars or reg.kind not in ("cb", "both", "pair"):
+                    continue
+                t = reg.target
+                rn = judge._node_of(m, reg.call)
+                before = len(found)
+                if isinstance(t, ast.Lambda):
+                    la = t.args.posonlyargs + t.args.args
+                    if la:
+                        scan(m, m, [(rn, t.body)], la[0].arg, {}, 0)
+                else:
+                    g = None
+                    if isinstance(t, ast.Attribute) and attr_path(t.value) == "self":
+                        g = ci.lookup(t.attr)
+                    elif isinstance(t, ast.Name) and t.id in m.nested:
+                        g = m.nested[t.id]
+                    if g is not None:
+                        scan_fn(m, g, [(m, rn, a, {}) for a in reg.args], 0)
+                if len(found) > before:
+                    r.site(m, reg.call, "lookup by name in the callback %s (%s)" % (
+                        reg.target_name(), ", ".join(sorted({h for (_o, _k, h) in found[before:]}))))
+        if not found:
+            raise AnchorVanished("no DirectoryNode operation looks a name up in the children map of self._read()")
+        r.count(len(found) + len(judge.consulted))
